@@ -105,6 +105,7 @@ struct MEDDLY::unpacked_lists {
 
 MEDDLY::unpacked_lists* MEDDLY::unpacked_node::ForLists;
 unsigned MEDDLY::unpacked_node::ForListsAlloc;
+unsigned MEDDLY::unpacked_node::InitCount = 0;
 
 // ******************************************************************
 // *                                                                *
@@ -128,6 +129,7 @@ MEDDLY::unpacked_node::unpacked_node(const forest* f, node_storage_flags fs)
     prev = nullptr;
 
     modparent = nullptr;
+    pInit = InitCount;
 
     _down = nullptr;
     _index = nullptr;
@@ -179,6 +181,7 @@ MEDDLY::unpacked_node::unpacked_node(const forest* f)
     parent = nullptr;
     modparent = nullptr;
     pFID = 0;
+    pInit = InitCount;
 
     _down = nullptr;
     _index = nullptr;
@@ -227,6 +230,7 @@ void MEDDLY::unpacked_node::attach(const forest* f)
     parent = f;
     modparent = nullptr;
     pFID = f->FID();
+    pInit = InitCount;
     the_edge_type = parent->getEdgeType();
 
     //
@@ -973,6 +977,16 @@ void MEDDLY::unpacked_node::Recycle(unpacked_node* r)
         return;
     }
 
+    if (r->pInit != InitCount || !forest::getForestWithID(r->pFID)) {
+        //
+        // The parent forest is gone: it was destroyed, or the library
+        // was re-initialized and the ID now names another forest.
+        // Another late recycle; keep it out of that forest's lists.
+        //
+        delete r;
+        return;
+    }
+
 #ifdef DEVELOPMENT_CODE
     MEDDLY_DCASSERT(r->can_be_recycled);
 #endif
@@ -1044,6 +1058,7 @@ void MEDDLY::unpacked_node::initStatics()
 {
     ForLists = nullptr;
     ForListsAlloc = 0;
+    ++InitCount;
 }
 
 void MEDDLY::unpacked_node::doneStatics()
